@@ -539,7 +539,7 @@ func TestC12(t *testing.T) {
 	}
 
 	// (b) schema-aware confusion of valid configurations
-	setRapidChecks(pick(250, 4000))
+	setRapidChecks(pick(600, 4000))
 	opts := gen.All()
 	opts.PkgMain = true
 	rapid.Check(t, func(rt *rapid.T) {
@@ -570,7 +570,7 @@ func TestC12(t *testing.T) {
 	})
 
 	// (c) arbitrary glob patterns and flag subsets on a valid file
-	setRapidChecks(pick(60, 600))
+	setRapidChecks(pick(120, 600))
 	patGen := rapid.OneOf(
 		rapid.SampledFrom([]string{"[", "]", "*", "?", "**", "[a-", "\\", "a.yaml/", "/", "", ".", "..", "*.yaml", "a?yaml", "[!a].yaml", "{a,b}.yaml", "out", "out/*", "\x00", strings.Repeat("a", 300), "~", "$HOME", "a.yaml ", " a.yaml"}),
 		rapid.StringMatching(`[a-z*?\[\]\\./-]{0,12}`),
